@@ -69,6 +69,7 @@ def _micro(ctx, rep, n):
             rep.dist['micro_buff_registrations_compared_with_spec'] += st.get('buff_registrations_compared', 0)
             rep.dist['micro_boost_target_sets_compared_with_spec'] += st.get('buff_target_sets_compared', 0)
             rep.dist['micro_steps_outside_stepok_load_unload'] += st.get('steps_outside_stepok_load_unload', 0)
+            rep.dist['micro_histories_with_divzero_read_compared_loosely'] += st.get('histories_with_divzero_read', 0)
             if dis:
                 def fails(ops, where=dis['where']):
                     d2 = MC.check(seed, p, ops)[1]
